@@ -42,6 +42,17 @@ CHECKS = {
   "note": COMMON_NOTE + "Modelled not verified: float64 arithmetic (the theorems are about exact rationals; decisions are compared "
           "exactly, numbers within 1e-9), non-decreasing time, method atomicity by the mutex, Go map iteration order in LFU eviction.",
  },
+ "C17": {
+  "text": "The stats primitives are *translated* on every run into micro-op programs (atomic add/load/store/swap, anything else as "
+          "separate non-atomic load and store); theorem: a cell written only by atomic adds ends at initial + all adds (mod 2^64) under "
+          "every interleaving of any number of goroutines, and equals initial + executed adds at every intermediate point; instantiated "
+          "on the translated programs: totals exact, counter = incr - decr, worker gauge = live workers (0 after stop), mean count/sum "
+          "exact at quiescence; a non-atomic increment provably loses updates. Lock discipline of rateBucket, wiring of the exported "
+          "entry points and the Incr/deferred-Decr pattern of the stage workers are extracted facts. Concurrent bursts against the real "
+          "package are compared with the model and with the workload's own event counts (thorough: also under the race detector).",
+  "note": COMMON_NOTE + "Modelled not verified: sync/atomic semantics, mutex exclusion, Go map safety under the mutex; the translator "
+          "itself (tools/facts/sec_stats.go, ~200 lines). mean.reset/counter.reset overlapping an add are excluded (no production caller).",
+ },
 }
 
 _todo = "check not built yet in this session (work in progress; see DESIGN.md §4 for the planned model and theorems)"
